@@ -168,7 +168,7 @@ class Rig:
     INBOUND = 6_000_000
     CONTROL = 7_000_000
 
-    def __init__(self, role: str, commack_req: int = 0, user_cbs=(), handler_kwargs=None):
+    def __init__(self, role: str, commack_req: int = 0, user_cbs=(), handler_kwargs=None, t3: float = 45):
         base = secsgem.gem.GemEquipmentHandler if role == "equipment" else secsgem.gem.GemHostHandler
         cls = base
         if commack_req:
@@ -177,7 +177,7 @@ class Rig:
         self.settings = MemSettings(
             connect_mode=secsgem.hsms.HsmsConnectMode.PASSIVE,
             device_type=secsgem.common.DeviceType.EQUIPMENT if role == "equipment" else secsgem.common.DeviceType.HOST,
-            t3=45, establish_communication_timeout=10)
+            t3=t3, establish_communication_timeout=10)
         self.log: list = []
         self.h = cls(self.settings, **(handler_kwargs or {}))
         self.p = self.h.protocol
@@ -190,11 +190,15 @@ class Rig:
         self._n = 0
         inner = self.p._thread._dispatcher_target
 
+        self.done_cond = threading.Condition()
+
         def counted(*a):
             try:
                 return inner(*a)
             finally:
-                self.done += 1
+                with self.done_cond:  # two dispatcher threads exist after a reconnect (they are never stopped)
+                    self.done += 1
+                    self.done_cond.notify_all()
 
         self.p._thread._dispatcher_target = counted
         RIGS[id(self.h)] = self
@@ -223,12 +227,17 @@ class Rig:
         self.fed += len(blocks)
         for b in blocks:
             self.c.on_data({"source": self.c, "data": b.encode()})
-        self.wait(lambda: self.done >= self.fed, "dispatch of an inbound block")
+        self.wait_done()
+
+    def wait_done(self):
+        with self.done_cond:
+            if not self.done_cond.wait_for(lambda: self.done >= self.fed, timeout=WAIT):
+                raise Stuck("dispatch of an inbound block")
 
     def feed_raw(self, raw: bytes, nblocks: int = 1):
         self.fed += nblocks
         self.c.on_data({"source": self.c, "data": raw})
-        self.wait(lambda: self.done >= self.fed, "dispatch of an inbound block")
+        self.wait_done()
 
     @staticmethod
     def wait(cond, what):
@@ -243,18 +252,40 @@ class Rig:
             if time.monotonic() > end:
                 raise Stuck(what)
 
+    def bounded(self, fn, what):
+        """run an action of the harness thread under a watchdog: the real code has unbounded waits (`BlockSendInfo.wait`)"""
+        box = []
+
+        def run():
+            try:
+                fn()
+            except Exception as exc:  # noqa: BLE001
+                box.append(exc)
+
+        t = threading.Thread(target=run, daemon=True)
+        t.start()
+        t.join(WAIT)
+        if t.is_alive():
+            raise Stuck(what)
+        if box:
+            raise box[0]
+
     def select(self):
         if not self.link:
-            self.c.on_connected({"source": self.c})
+            self.bounded(lambda: self.c.on_connected({"source": self.c}), "on_connected")
             self.link = True
         self.feed(secsgem.hsms.HsmsMessage(secsgem.hsms.HsmsSelectReqHeader(self.CONTROL + self.fresh()), b""))
 
     def lose(self):
         if not self.link:
             return
-        self.c.on_disconnecting({"source": self.c})
-        self.c.on_disconnected({"source": self.c})
+
+        def go():
+            self.c.on_disconnecting({"source": self.c})
+            self.c.on_disconnected({"source": self.c})
+
         self.link = False
+        self.bounded(go, "on_disconnecting/on_disconnected")
 
     def data_message(self, s, f, w, system, body=b""):
         return secsgem.hsms.HsmsMessage(secsgem.hsms.HsmsStreamFunctionHeader(system, s, f, w, self.settings.device_id), body)
@@ -319,3 +350,34 @@ class Rig:
         for k in (id(self.h), id(self.h._callback_handler), id(self.h._communication_state)):
             RIGS.pop(k, None)
         self.c.rig = None
+
+
+# ------------------------------------------------------------------------------------------------ model driver
+def driver_run(lines, tries: int = 40):
+    """`hlib.Driver().run` on a private copy of the binary: several builders share `.lake`, and the executable is briefly
+    absent while one of them relinks it."""
+    import shutil
+    import tempfile
+
+    last = None
+    for _ in range(tries):
+        try:
+            d = os.environ.get("VERIF_SCRATCH") or tempfile.gettempdir()
+            own = os.path.join(d, f"driver-{os.getpid()}")
+            shutil.copy2(hlib.DRIVER, own)
+            old, hlib.DRIVER = hlib.DRIVER, own
+            try:
+                drv = hlib.Driver()
+                if not drv.available:
+                    raise FileNotFoundError(own)
+                return drv.run(lines)
+            finally:
+                hlib.DRIVER = old
+                try:
+                    os.remove(own)
+                except OSError:
+                    pass
+        except (FileNotFoundError, PermissionError, OSError) as exc:
+            last = exc
+            time.sleep(1.5)
+    raise RuntimeError(f"model driver unavailable: {last}")
